@@ -202,7 +202,7 @@ fn ed_case() -> impl Strategy<Value = ExecCase> {
     (
         any::<[u8; 32]>(),
         proptest::collection::vec(any::<u8>(), 0..80),
-        prop_oneof![4 => Just(0u8), 2 => Just(1u8), 2 => Just(2u8), 2 => Just(3u8), 1 => Just(4u8)],
+        prop_oneof![4 => Just(0u8), 2 => Just(1u8), 2 => Just(2u8), 2 => Just(3u8), 1 => Just(4u8), 1 => Just(5u8)],
         any::<u32>(),
         any::<u8>(),
     )
@@ -230,6 +230,14 @@ fn ed_case() -> impl Strategy<Value = ExecCase> {
                     key[i / 8] ^= 1 << (i % 8);
                 }
                 4 => key = [0xff; 32],
+                // small-order public key and R (the neutral element) with s = 0: a well-formed signature that plain
+                // verification accepts for every message
+                5 => {
+                    key = [0; 32];
+                    key[0] = 1;
+                    sig = [0; 64];
+                    sig[0] = 1;
+                }
                 _ => {}
             }
             let mut c = ExecCase::simple(vec![VRFYED]);
